@@ -146,8 +146,13 @@ impl VouchedTime {
             return Err(std::io::Error::other("base_time does not match voucher"));
         }
 
+        // Floor, not truncation toward zero: a local time less than a
+        // millisecond before the epoch is before the epoch.
         Self::check_vouched_time(
-            local_time.assume_utc().unix_timestamp_nanos() / 1_000_000,
+            local_time
+                .assume_utc()
+                .unix_timestamp_nanos()
+                .div_euclid(1_000_000),
             base_time_ms,
         )
     }
